@@ -189,6 +189,13 @@ class C12(Prop):
                         for it in sec["items"][:4]:
                             if g.random() < 0.5:
                                 it[0] = it[0].lower() if g.random() < 0.5 else it[0].capitalize()
+            if g.random() < 0.2:
+                # ~Well items whose description is itself a number (year, run number), with and without a unit
+                for sec in doc["sections"]:
+                    if sec["kind"] == "W":
+                        sec["items"].append(["EGL", g.choice(["M", "FT", ""]), g.choice(["230.5", "0", "12"]), g.choice(["1985", "2", "3.5"])])
+                        if g.random() < 0.5:
+                            sec["items"].append(["RUN", g.choice(["", "M"]), "ONE", "1"])
             if g.random() < 0.12:
                 # terse ~Well: few items, short or empty descriptions (the widest field of the section is then a value)
                 for sec in doc["sections"]:
